@@ -11,7 +11,7 @@ RULE = ("histories over the trait methods (Update, Reset, FixedOutput, FixedOutp
         "with good, bit-flipped, truncated and extended tags) interleaved with the inherent methods on the same registers, each followed "
         "by inherent finalize/count so that the state left behind by the resetting variants is observed; guts::ChunkState with chunk "
         "counters {0,1,2^32-1,2^32,2^32+1,2^64-1}, lengths over the size classes <= 1024 in any split, is_root both ways (root with "
-        "non-zero counter is unspecified: expected PANIC in debug builds), guts::parent_cv on random CV pairs; "
+        "non-zero counter: PANIC in the debug-assertions build, the root hash with counter 0 in a separate build without debug assertions - profile relnd), guts::parent_cv on random CV pairs; "
         "non-trivial = history with a trait op after an update; distinct = distinct script")
 ASSUMPTIONS = ["digest's blanket impls (Digest, Mac) call the methods modelled here"]
 NOT_PROVED = []
@@ -133,8 +133,23 @@ def stages(tier, seed, witness_search=False):
     base = [f"T newkey a {k}", "T mac a"]
     for t in [tag, tag[:-2] + "27", tag[:-2], tag + "00", "-", "00" * 32]:
         scripts.append(Script(base + [f"T macverify a {t}"], tags=("macverify",)))
-    return [LineStage("traits-guts", scripts, normalize=c03.normalize)]
+    # the guts API in a build WITHOUT debug assertions and overflow checks (profile `relnd`): `finalize(true)` with a non-zero chunk
+    # counter returns the root hash computed with counter 0 there (in debug builds an assertion fires instead); `G finrel` is the same
+    # call, answered by the model with that behaviour
+    rel = []
+    for i in range(n // 2):
+        g = guts_script(rng, PLATFORMS[i % 5])
+        rel.append(Script([o.replace("G fin g ", "G finrel g ") for o in g.ops if not o.startswith("D dbgg")], tags=g.tags + ("no-debug-assertions",)))
+    return [LineStage("traits-guts", scripts, normalize=c03.normalize),
+            LineStage("guts-no-debug-assertions", rel + [mac_script(rng) for _ in range(10)], normalize=c03.normalize, profile="relnd")]
 
 
 def replay(d, lean_exe):
+    if d.get("stage") == "guts-no-debug-assertions":
+        from ..stage import LineStage
+        from .. import core
+        st = LineStage("replay", [Script(d.get("ops", []))], normalize=c03.normalize, max_minimise=0, profile="relnd")
+        ok, exe, log = st.build_impl()
+        mism = core.run_pair(st.scripts, exe, lean_exe, "rs", c03.normalize)
+        return dict(still_fails=bool(mism))
     return replay_line(d, lean_exe, normalize=c03.normalize)
